@@ -365,17 +365,18 @@ func (r *refState) remove(ep int) {
 	r.okCount++
 }
 
-// label qualifies a drop cause by when the drop happened relative to the step being judged:
-// in this very step (plain cause), in this round next to other successful updates
-// ("+concurrent-update"), or in an earlier step after which everything still was consistent
-// ("+resurfaced").
+// label qualifies a drop cause by when the drop happened relative to the step being judged: in
+// this very step (plain cause); in an earlier step after which every observation still was
+// consistent ("+resurfaced"); and, for removals only, in this round next to other successful
+// updates ("+concurrent-update": whether a removed endpoint comes back depends on which of the
+// two was applied first, which a plain removal does not).
 func (r *refState) label(d dropInfo) string {
 	switch {
 	case d.seq < 0:
 		return d.cause
 	case d.seq < r.stepStart:
 		return d.cause + "+resurfaced"
-	case r.okCount-r.stepStart > 1:
+	case d.cause == "remove" && r.okCount-r.stepStart > 1:
 		return d.cause + "+concurrent-update"
 	}
 	return d.cause
